@@ -108,13 +108,30 @@ def run_pool(modname, jobs, nproc=None, budget_s=None, progress=None):
 def load_known():
     p = os.path.join(VERIF, 'known_findings.json')
     if not os.path.exists(p):
-        return {}
+        return Known()
     with open(p) as f:
         d = json.load(f)
-    out = {}
+    out = Known()
     for e in d.get('findings', []):
-        out[(e['property'], e['key'])] = e
+        if e.get('family'):
+            out.families.append((e['property'], e['key']))     # key is a glob over finding keys: one defect site, many inputs
+        else:
+            out[(e['property'], e['key'])] = e
     return out
+
+
+class Known(dict):
+    """known findings: exact (property, key) entries plus a few family entries whose key is a glob (one call site of the code
+    that fails for a whole class of inputs, e.g. every mnemonic with a 16-bit addressing form)"""
+    def __init__(self):
+        dict.__init__(self)
+        self.families = []
+
+    def __contains__(self, pk):
+        if dict.__contains__(self, pk):
+            return True
+        import fnmatch
+        return any(p == pk[0] and fnmatch.fnmatchcase(pk[1], g) for p, g in self.families)
 
 
 # -------------------------------------------------------------------------------------------------
